@@ -70,7 +70,7 @@ fn main() {
         "c01" => c01::run(&mut rng, n, &mut out, "c01"),
         "c17" => c01::run(&mut rng, n, &mut out, "c17"),
         "c02" => c02::run(&mut rng, n, &mut out),
-        "tie" | "c05" | "c06" | "c07" => csearch::run(&mut rng, n, &mut out, prop),
+        "tie" | "c05" | "c06" | "c07" | "c15s" => csearch::run(&mut rng, n, &mut out, prop),
         "c08" | "c03" | "c04" | "c09" => cgame::run(&mut rng, n, &mut out, prop),
         "c10" => c10::run(&mut rng, n, &mut out, false),
         "c10x" => c10::run(&mut rng, n, &mut out, true),
